@@ -38,6 +38,13 @@ CHECKS = {
              "edit returns the entry state (all raises precede all writes); box kept by edits beyond the first step; names preserved. "
              "Op sequences (valid+invalid) are replayed on implementation and regenerated code, compared after every op.",
         ref="5 C07", technique="Coq proof over model regenerated from source by translator + op-sequence correspondence"),
+    "C13": dict(
+        text="Theorems over the index/shape wrappers REGENERATED from gwcs/api.py each run (array-index variants are the pixel variants "
+             "reversed; world_to_array_index(_values) = toindex of the reversed inverse; array_shape = pixel_shape reversed after ANY "
+             "history of assignments; wrong-length pixel_shape rejected with state unchanged) and over utils._toindex (nearest pixel "
+             "centre, ties up, for every rational; binary64 instance swept on all 1/8 multiples |x|<=256). Regenerated code is run "
+             "inside Coq against the implementation; dims/bounds/separability are checked by a property oracle over WCS families.",
+        ref="5 C13", technique="Coq proof over model regenerated from source by translator + vm_compute correspondence"),
 }
 
 NOT_YET = "check not built yet in this session (work in progress; see DESIGN.md section 10 build order)"
